@@ -116,6 +116,31 @@ def closeBalance (e : Env) (b0 : Bank) (bal : Option Balance) : Res Out := do
     let (b, x) ← closeBalanceOp b x e.now
     .ok (b, some x, 0)
 
+/-- `lending_account_purge_deleverage_balance` (risk admin, bank flagged TOKENLESS_REPAYMENTS_COMPLETE; no accrual, no
+    emissions claim): the position is closed and the bank's deposit total falls by exactly its deposit shares; a debt
+    residue is tolerated only when its VALUE at the current share value is below the dust threshold, and stays in the
+    bank's debt total -/
+def purge (b : Bank) (bal : Option Balance) : Res Out :=
+  match bal with
+  | none => merr E.BankAccountNotFound
+  | some x => do
+    let la ← liabAmount b x.l
+    if Fx.abs la ≥ ZERO_AMOUNT_THRESHOLD then merr E.OperationWithdrawOnly
+    else do
+      let x' ← Bank.closeBalance x false
+      let b1 := { b with lendCnt := satI32 (b.lendCnt - 1) }
+      let b2 ← changeAssetShares b1 (-x.a) false
+      .ok (b2, some x', 0)
+
+/-- `lending_pool_close_bank` (group admin): the bank must be closable by version, hold no open position on either side,
+    and have share totals and unclaimed emissions that are zero within the dust tolerance -/
+def closeBank (b : Bank) : Res Unit :=
+  if b.flags &&& CLOSE_ENABLED_FLAG.toNat = 0 then merr E.BankCannotClose
+  else if !(b.lendCnt = 0 ∧ b.borrowCnt = 0) then merr E.BankCannotClose
+  else if !(isZeroTol b.sa ZERO_AMOUNT_THRESHOLD && isZeroTol b.sl ZERO_AMOUNT_THRESHOLD) then merr E.BankCannotClose
+  else if !(isZeroTol b.emissionsRemaining ZERO_AMOUNT_THRESHOLD) then merr E.BankCannotClose
+  else .ok ()
+
 /-! ### classic liquidation: the accounting block of `lending_account_liquidate`
 
 Both banks are accrued, the amounts block (`Risk.liquidationAmounts`: 97.5 % / 95 % of the seized value at the given
